@@ -12,12 +12,14 @@ package bpv7
 //@ ensures fragPb.CreationTimestamp == pb.CreationTimestamp && fragPb.Lifetime == pb.Lifetime && fragPb.Version == pb.Version && fragPb.CRCType == pb.CRCType
 //@ ensures fragPb.FragmentOffset == uint64(fragmentOffset) && fragPb.TotalDataLength == uint64(totalDataLength)
 //@ ensures uint64(fragPb.BundleControlFlags) == uint64(pb.BundleControlFlags) | 0x01
-//@ ensures l >= 0
+//@ ensures l >= 0 && l <= (1 << 41)
 
 // govc:func fragmentExtensionBlocksLen property C09
-//@ requires blocksNonNil(b)
+//@ requires blocksNonNil(b) && len(b.CanonicalBlocks) <= (1 << 16)
 //@ assigns nothing
+//@ ensures err == nil ==> 0 <= first && first <= (1 << 59) && 0 <= others && others <= (1 << 59)
 //@ loop 0 invariant 0 <= rangeindex + 1 && rangeindex + 1 <= len(b.CanonicalBlocks) && blocksNonNil(b)
+//@ loop 0 invariant 0 <= first && first <= (rangeindex + 1) << 43 && 0 <= others && others <= (rangeindex + 1) << 43
 
 // govc:spec isPayloadCB(cb *CanonicalBlock, n int) bool = cb != nil && cb.Value != nil && ref(cb.Value) != 0 && is(cb.Value, *PayloadBlock) && n == len([]byte(*(cb.Value.(*PayloadBlock))))
 
@@ -28,8 +30,10 @@ package bpv7
 // The fragment's primary block x repeats the identity of the original's y and is marked as a fragment.
 // govc:spec fragOf(x PrimaryBlock, y PrimaryBlock) bool = x.Version == y.Version && uint64(x.BundleControlFlags) == uint64(y.BundleControlFlags) | 0x01 && x.CRCType == y.CRCType && x.Destination == y.Destination && x.SourceNode == y.SourceNode && x.ReportTo == y.ReportTo && x.CreationTimestamp == y.CreationTimestamp && x.Lifetime == y.Lifetime
 
+// The bound on the number of blocks keeps the overhead sums of fragmentExtensionBlocksLen within int range (each
+// encoded block is at most 2^41 bytes in the stream model); bundles with more than 65536 blocks are outside the claim.
 // govc:func (Bundle).Fragment property C09
-//@ requires blocksNonNil(b)
+//@ requires blocksNonNil(b) && len(b.CanonicalBlocks) <= (1 << 16)
 //@ ensures (uint64(b.PrimaryBlock.BundleControlFlags) & 0x04) != 0 ==> err != nil
 //@ ensures err == nil ==> len(bs) >= 1
 //@ ensures err == nil && len(bs) == 1 ==> pbSame(bs[0].PrimaryBlock, b.PrimaryBlock) && sameSlice(bs[0].CanonicalBlocks, b.CanonicalBlocks)
@@ -40,6 +44,8 @@ package bpv7
 //@ loop 0 invariant (len(bs) > 0 ==> bs[0].PrimaryBlock.FragmentOffset == 0) && (i == 0 ==> len(bs) == 0) && err == nil
 //@ loop 0 invariant 0 <= i && (i > 0 ==> len(bs) >= 1)
 //@ loop 0 invariant blocksNonNil(b)
+//@ loop 0 invariant 0 <= extFirstOverhead && extFirstOverhead <= (1 << 59) && 0 <= extOtherOverhead && extOtherOverhead <= (1 << 59) && 0 <= payloadBlockLen && payloadBlockLen <= (1 << 40)
+//@ loop 0 invariant i > 0 && i < payloadBlockLen ==> mtu <= (1 << 61)
 //@ loop 0 invariant isPayloadCB(payloadBlock, payloadBlockLen)
 //@ loop 0 invariant sameSlice(b.CanonicalBlocks, old(b.CanonicalBlocks)) && pbSame(b.PrimaryBlock, old(b.PrimaryBlock))
 //@ loop 1 invariant 0 <= rangeindex + 1 && rangeindex + 1 <= len(b.CanonicalBlocks)
